@@ -18,21 +18,21 @@ type SocksRefConfig struct {
 }
 
 type SocksRefResult struct {
-	Pieces       []string // "method:X", "auth:ok", "auth:fail", "reply:N"
-	ExpectLen    int      // bytes of server output implied by Pieces
-	Authed       bool     // the client got past authentication
-	PresentedOK  bool     // the client presented credentials accepted by Valid
-	OfferedNoAuth bool
-	ReachedRequest bool   // a complete request header was parsed
-	Command      byte
-	AddrType     byte
-	Host         string // textual host of the request (IP string or raw domain bytes)
-	IP           net.IP
-	Port         uint16
-	Exec         string // "connect" "udp" "icmp" or "" - the command the server is expected to execute
-	DialAddr     string // expected dial address for CONNECT
-	BadCmd       bool
-	BadAtyp      bool
+	Pieces         []string // "method:X", "auth:ok", "auth:fail", "reply:N"
+	ExpectLen      int      // bytes of server output implied by Pieces
+	Authed         bool     // the client got past authentication
+	PresentedOK    bool     // the client presented credentials accepted by Valid
+	OfferedNoAuth  bool
+	ReachedRequest bool // a complete request header was parsed
+	Command        byte
+	AddrType       byte
+	Host           string // textual host of the request (IP string or raw domain bytes)
+	IP             net.IP
+	Port           uint16
+	Exec           string // "connect" "udp" "icmp" or "" - the command the server is expected to execute
+	DialAddr       string // expected dial address for CONNECT
+	BadCmd         bool
+	BadAtyp        bool
 }
 
 func SocksRef(in []byte, cfg SocksRefConfig) SocksRefResult {
